@@ -15,6 +15,14 @@ type verifShape struct {
 	traces [4]int // traces per result, by depth
 	subs   [4]int // sub-results per trace, by depth
 	loc    [4]bool
+	lit    int // which of the trace value's actual / expected are typed literals taken from the data: bit 0 actual, bit 1 expected
+}
+
+func verifLiteral(typed bool, val string) any {
+	if typed {
+		return types.ObjectMap{"@type": "http://www.w3.org/2001/XMLSchema#date", "@value": val}
+	}
+	return val
 }
 
 func verifLocation() types.ObjectMap {
@@ -28,7 +36,8 @@ func verifLocation() types.ObjectMap {
 func verifResultTree(sh *verifShape, depth int, name string) types.ObjectMap {
 	var traces []any
 	for t := 0; t < sh.traces[depth]; t++ {
-		tv := types.ObjectMap{"@type": []any{"reportSchema:TraceValueNode", "validation:TraceValue"}, "negated": false}
+		tv := types.ObjectMap{"@type": []any{"reportSchema:TraceValueNode", "validation:TraceValue"}, "negated": false,
+			"actual": verifLiteral(sh.lit&1 != 0, "2020-01-01"), "expected": verifLiteral(sh.lit&2 != 0, "2021-01-01")}
 		if depth > 0 && sh.subs[depth] > 0 {
 			var subs []any
 			for s := 0; s < sh.subs[depth]; s++ {
@@ -79,7 +88,7 @@ func verifCollectIds(x any, ids *[]string) {
 // that is unique in the document; one dialect instance encodes one report node.
 func VerifC12Ids() {
 	depth := 1 + v.Choice("depth", 3)
-	sh := &verifShape{}
+	sh := &verifShape{lit: v.Choice("literals", 4)}
 	traces, subs, loc := 1+v.Choice("traces", 2), v.Choice("subs", 3), v.Choice("loc", 2) == 1
 	for d := 0; d <= depth; d++ {
 		sh.traces[d] = traces
